@@ -215,9 +215,11 @@ def run(ctx):
     ctx.cov["traces_validated_against_impl"] = len(good)
     ctx.cov["mismatches"] = len(bad)
     ctx.assumptions = [
-        "the simulated node answers over go-ethereum's real rpc server/client; TLS, HTTP transports and provider quirks are not simulated",
-        "a failing block-time lookup on the log path terminates Run (the supervisor restarts it); restarts are not part of the model",
-        "the head subscription delivers what the poller publishes in order (go-ethereum event.Feed); the watcher's own 'processed new header' log line is used as the trace of head processing",
+        "the simulated node answers over go-ethereum's real rpc server/client (websocket); TLS, HTTP transports and provider quirks are not simulated",
+        "the log subscription's address/topic filter is applied by the node (the harness checks that the real subscription request names the core contract and the LogMessagePublished topic and applies it like a node would)",
+        "a failing block-time lookup on the log path terminates Run (the supervisor restarts it); the log is then never recorded; restarts are not part of the model (explicit Died outcome, not exercised)",
+        "the head subscription delivers what the poller publishes in order (go-ethereum event.Feed); the watcher's own 'processing new header' / 'processed new header' log lines are the trace of head processing (a rewording shows up as rendezvous timeouts)",
         "receipts whose JSON does not unmarshal (non-nil receipt together with an error) are not generated",
-        "logs with an empty topic list inside a re-observed receipt make the real code panic (Topics[0]); modelled as an explicit Panic outcome, not exercised",
+        "logs with an empty topic list / a receipt without block number inside a re-observed receipt make the real code panic (Topics[0], BlockNumber.Uint64()); modelled as explicit Panic outcomes, not exercised",
+        "uint64 wrap-around of height + consistency level + maxWaitConfirmations is excluded by the range hypotheses of the theorems (block numbers < 2^64 - 315); C10_range_hypothesis_needed shows the wrap",
     ]
